@@ -40,6 +40,7 @@ func init() {
 	ruleText["R07.11"] = "go.mod declares a language version below go1.22: no function literal that outlives its loop iteration (stored in a field or element, appended, returned, placed in a composite literal, given to reflect.MakeFunc, started by go/defer) refers to a variable of the enclosing for/range clause"
 	ruleText["R07.12"] = "in the generator of calls, inside each loop over the results of a nested call that appends operand generators, the parameter type of the operand position is not consulted: a variable redefined inside that loop (per result) is"
 	ruleText["R07.13"] = "same analysis as C06/R06.11 (a deferred host call written f(s...) hands the host the elements of s, not s as one argument)"
+	ruleText["R07.14"] = "every entry zeroValues[<T>T] built by reflect.ValueOf holds a value whose Go type is T (table agreement between type categories and reflect kinds)"
 	ruleText["R07.6"] = "same analysis as C05/R05.5 (getWrapper decides on (*itype).methods)"
 }
 
@@ -69,6 +70,7 @@ func runC07(c *Config, r *Report) {
 	c07R10(ic, r)
 	c07R12(ic, r)
 	c06R11(ic, r, "R07.13")
+	zeroTableAgreement(ic, r, "R07.14")
 }
 
 // c07R1: sibling agreement of the argument preparation in callBin.
@@ -685,5 +687,79 @@ func c07R14(ic *IC, r *Report, rule string) {
 	}
 	if n == 0 {
 		r.Errorf("%s: no store of a whole operand into the variadic vector found in the generator of calls", rule)
+	}
+}
+
+// zeroTableAgreement: the table of zero values indexed by type category holds, for the category
+// named <T>T, the zero value of the Go type T (zeroValues[complex64T] is complex64(0)): a
+// value declared complex64 in the script must have kind Complex64 when it reaches the host.
+// Entries are read from element assignments and from a keyed composite literal.
+func zeroTableAgreement(ic *IC, r *Report, rule string) {
+	info := ic.Info
+	tbl := ic.Pk.Types.Scope().Lookup("zeroValues")
+	if tbl == nil {
+		r.Errorf("%s: anchor not resolved: package variable zeroValues", rule)
+		return
+	}
+	n := 0
+	check := func(key ast.Expr, val ast.Expr) {
+		kid := identOf(key)
+		if kid == nil {
+			return
+		}
+		c, ok := info.Uses[kid].(*types.Const)
+		if !ok || !strings.HasSuffix(c.Name(), "T") {
+			return
+		}
+		want := strings.TrimSuffix(c.Name(), "T")
+		call, ok := unparen(val).(*ast.CallExpr)
+		if !ok || !isCallTo(info, call, "reflect.ValueOf") || len(call.Args) != 1 {
+			return
+		}
+		t := info.TypeOf(call.Args[0])
+		if t == nil {
+			return
+		}
+		b, isBasic := t.(*types.Basic)
+		if !isBasic {
+			return // error and other non-basic entries are built differently
+		}
+		n++
+		got := b.Name()
+		if b.Info()&types.IsUntyped != 0 {
+			got = types.Default(b).String()
+		}
+		r.Check(got == want, rule, "zeroValues/"+c.Name(), ic.pos(val.Pos()), "the zero value has the Go type the category is named after",
+			"zeroValues["+c.Name()+"] is a zero value of type "+got+", not "+want+": a script variable of that type is created with the wrong reflect kind, which shows as soon as it crosses the host boundary (reflect.Value.Call panics, a host function receives a "+got+")")
+	}
+	for _, f := range ic.Pk.Syntax {
+		ast.Inspect(f, func(m ast.Node) bool {
+			switch x := m.(type) {
+			case *ast.AssignStmt:
+				for i, l := range x.Lhs {
+					if ix, ok := unparen(l).(*ast.IndexExpr); ok && i < len(x.Rhs) {
+						if id := identOf(ix.X); id != nil && info.ObjectOf(id) == tbl {
+							check(ix.Index, x.Rhs[i])
+						}
+					}
+				}
+			case *ast.ValueSpec:
+				for i, nm := range x.Names {
+					if info.ObjectOf(nm) == tbl && i < len(x.Values) {
+						if cl, ok := unparen(x.Values[i]).(*ast.CompositeLit); ok {
+							for _, e := range cl.Elts {
+								if kv, ok := e.(*ast.KeyValueExpr); ok {
+									check(kv.Key, kv.Value)
+								}
+							}
+						}
+					}
+				}
+			}
+			return true
+		})
+	}
+	if n < 15 {
+		r.Errorf("%s: only %d entries of zeroValues read (17 basic categories expected)", rule, n)
 	}
 }
